@@ -1,9 +1,97 @@
-import LSProofs.Wf
-/-! # C04 — placeholder while the refinement development is being written (see DESIGN 4.4) -/
-namespace LS.C04
-open LS
+import LSProofs.ConcInv
+import LSProofs.Tie
+/-!
+# C04 — handles are independent and memory-safe across threads, under every schedule
 
-theorem init_wf (st : List Bytes) (hst : ∀ t ∈ st, Valid t ∧ t.length ≤ STATIC_MAX_LEN) :
-    Wf { statics := st } := wf_init st hst
+**Stage 1 (proved): sequentially consistent atomics.** `LS.Conc` (LSModel/Conc.lean) is the
+reference-count protocol at the granularity of the atomic operations and buffer accesses of
+`src/repr.rs`. For **any number of threads, any programs, any schedule of any length**
+(`run_safe` quantifies over the schedule list; programs are the choice of actions): every
+reachable configuration satisfies `CInv`, hence `Safe`: every buffer a thread reads, writes,
+reallocates or frees is live; a thread that writes / reallocates in place, or frees, is alone on
+that buffer (no other thread owns a handle on it or is inside an access to it); the thread that
+frees is unique, so a buffer is released exactly once, after the last access.
+The atomic orderings of the source are pinned by `orderings`.
+
+**Not proved (PARTIAL):** visibility orders weaker than SC (release/acquire views), and borrowed
+`&LeanString` shared between threads (the model has owned handles only); each thread's *text*
+results are those of the sequential model (C01/C02) because other threads' steps never touch a
+block this thread writes (the `unique` clause of `Safe`).
+-/
+namespace LS.C04
+open LS LS.Conc
+
+/-- the orderings the protocol model assumes are the ones in the source: Relaxed increment,
+Release decrement followed by an Acquire fence before `dealloc`, Acquire load for `is_unique`;
+and no other atomic site exists (the pre-repair decrement-then-increment probes are gone) -/
+theorem orderings : Gen.atomicSites =
+    [("make_shallow_clone", "fetch_add", "Relaxed"), ("replace_inner", "fetch_sub", "Release"),
+     ("replace_inner", "fence", "Acquire"), ("is_unique", "load", "Acquire")] := rfl
+
+/-- initial configurations: one live buffer with `n` handles held by `n` threads -/
+def initCfg (n : Nat) : Cfg := { blocks := [{ live := true, rc := n }], threads := List.replicate n { owned := [0] } }
+
+theorem cnt_replicate (n a : Nat) (t : Thread) : cnt (List.replicate n t) a = n * t.owned.count a := by
+  unfold cnt
+  induction n with
+  | zero => simp
+  | succ k ih => simp only [List.replicate_succ, List.map_cons, List.sum_cons, ih]; rw [Nat.succ_mul]; omega
+
+theorem init_inv (n : Nat) : CInv (initCfg n) := by
+  have hget : ∀ (i : Nat) (t : Thread), (initCfg n).threads[i]? = some t → t = { owned := [0] } := by
+    intro i t h
+    simp only [initCfg] at h
+    rw [List.getElem?_replicate] at h
+    split at h
+    · injection h with h; exact h.symm
+    · cases h
+  refine ⟨?_, ?_, ?_, ?_, ?_, ?_⟩
+  · intro a b hb _
+    simp only [initCfg] at hb ⊢
+    cases a with
+    | zero => simp at hb; subst hb; rw [cnt_replicate]; simp
+    | succ a => simp at hb
+  · intro i t ht a ha
+    rw [hget i t ht] at ha; simp at ha; subst ha; simp [initCfg, liveOf]
+  · intro i t a ht hp
+    rw [hget i t ht] at hp; simp [Phase.needsHandle] at hp
+  · intro i t a ht hp; rw [hget i t ht] at hp; cases hp
+  · intro i t a ht hp; rw [hget i t ht] at hp; cases hp
+  · intro i t a ht; rw [hget i t ht]; simp
+
+/-- **memory safety under every schedule, for every number of threads** -/
+theorem safe_under_every_schedule (n : Nat) (sched : List (Nat × Act)) (c' : Cfg)
+    (h : Conc.run false (initCfg n) sched = some c') : Safe c' :=
+  run_safe sched _ c' (init_inv n) h
+
+/-- the count is always the number of handles, across threads -/
+theorem count_is_handles (n : Nat) (sched : List (Nat × Act)) (c' : Cfg)
+    (h : Conc.run false (initCfg n) sched = some c') (a : Nat) (b : Blk) (hb : c'.blocks[a]? = some b) (hl : b.live = true) :
+    b.rc = cnt c'.threads a :=
+  (run_inv sched _ c' (init_inv n) h).count a b hb hl
+
+/-- a buffer is freed by exactly one thread: two threads are never both about to free it -/
+theorem freed_once (n : Nat) (sched : List (Nat × Act)) (c' : Cfg)
+    (h : Conc.run false (initCfg n) sched = some c') (i j : Nat) (t u : Thread) (a : Nat)
+    (hi : c'.threads[i]? = some t) (hj : c'.threads[j]? = some u) (hne : j ≠ i)
+    (h1 : t.phase = .dying a) : u.phase ≠ .dying a :=
+  ((run_inv sched _ c' (init_inv n) h).dying i t a hi h1).2.2 j u hne hj
+
+/-- the pre-repair make-unique (decrement first, read afterwards) is **unsafe**: a four-step
+schedule of two threads reaches a configuration in which thread 0 is about to read a released
+buffer (finding F1b, reproduced on the real crate under ASan) -/
+theorem legacy_make_unique_unsafe :
+    ∃ c', Conc.run true (initCfg 2) [(0, .legacyProbe 0), (1, .drop 0), (1, .free)] = some c' ∧ ¬ Safe c' := by
+  refine ⟨_, rfl, ?_⟩
+  intro hs
+  have := hs.1 0 { owned := [], phase := .legacyCopying 0 } (by decide) 0 rfl
+  revert this; decide
+
+/-- the same three steps are not even available to the repaired protocol -/
+theorem repaired_has_no_such_schedule : Conc.run false (initCfg 2) [(0, .legacyProbe 0), (1, .drop 0), (1, .free)] = none := by
+  decide
+
+-- non-vacuity: a schedule in which one thread copies out while the other drops, then frees
+example : (Conc.run false (initCfg 2) [(0, .probe 0), (1, .drop 0), (0, .copyRead), (0, .copyFinish), (0, .free)]).isSome = true := by decide
 
 end LS.C04
